@@ -8,34 +8,11 @@
   canonical order, `keys()` = the stored names, `self[name]` = the entry of that name (KeyError without one).
   `pyItems` is the list of (name, object) pairs; `ivItem` is what the serialiser observes of a pair.
 -/
-import ICal.Gen.BodiesSer
-import ICal.Model.Ser
+import ICal.Model.SerPieces
 import ICal.Lemmas.CDict
 set_option linter.unusedSimpArgs false
 namespace ICal.Bodies
 open ICal ICal.PyRT ICal.Gen.BodiesSer
-
-def nameToIcalP (n : Str) : Str := escapeChar n
-def keysP (c : Comp) : List Str := c.props.map (·.name)
-def sortedKeysP (c : Comp) : List Str := CDict.canonsort (keysP c) (canonicalOrderOf c.name)
-
-/-- the values of an entry as `self[name]` hands them out -/
-def entryVals (e : Entry) : PyVals :=
-  if e.isList then .many e.vals else
-    match e.vals with
-    | [v] => .one v
-    | vs => .many vs
-
-def getitemP (c : Comp) (k : Str) : Py PyVals :=
-  match c.props.find? (fun e => e.name == k) with
-  | some e => .ok (entryVals e)
-  | none => .error .keyError
-
-/-- what the serialiser observes of a pair -/
-def ivItem : PyItem → Item
-  | (n, .bytes b) => ⟨n, b, []⟩
-  | (n, .obj v) => ⟨n, v.text, v.params⟩
-  | (n, .list _) => ⟨n, [], []⟩
 
 def entryPyItems (props : List Entry) (n : Str) : List PyItem :=
   match props.find? (fun e => e.name == n) with
